@@ -1,0 +1,36 @@
+//go:build verif
+
+package dnsforward
+
+import (
+	"time"
+
+	"github.com/AdguardTeam/golibs/log"
+)
+
+// This file is only compiled with the "verif" build tag.  It adds an accessor
+// used by the external deterministic-simulation harness and changes nothing
+// in the shipped build.
+
+// VerifReconfigureNoListen performs exactly what [Server.Reconfigure] does
+// with a nil configuration (stop the proxy, wait, close the address processor,
+// [Server.Prepare] with the current configuration) except for the final
+// startLocked call, which would open real listeners.  The harness never starts
+// listeners: it feeds requests to the prepared proxy directly.
+func (s *Server) VerifReconfigureNoListen() (err error) {
+	s.serverLock.Lock()
+	defer s.serverLock.Unlock()
+
+	s.stopLocked()
+
+	time.Sleep(100 * time.Millisecond)
+
+	if s.addrProc != nil {
+		err = s.addrProc.Close()
+		if err != nil {
+			log.Error("dnsforward: closing address processor: %s", err)
+		}
+	}
+
+	return s.Prepare(&s.conf)
+}
